@@ -23,6 +23,11 @@ CLAIMED["C14"] = ("static panic-freedom and loop-progress obligations over the r
   "Trusts the compiler's prove pass, the reviewed table (checker/c14.go), matcher index contracts and non-negative row/column limits. Does not decide proportionality, alignment, displayed = aggregated, '(n more)' counts.",
   "DESIGN.md §3 C14")
 
+CLAIMED["C05"] = ("static lock-set / atomic-consistency discipline over go/cfg (must-hold lock sets, inferred shared types), typestate of pooled contexts, dominance/post-dominance rules on RunAggregationLoop, WaitGroup/close ordering and semaphore pairing rules",
+  "Decides the structural conditions under which the pipeline is race-free and ends with a complete render: every mutable field of a type that owns a mutex or an atomic counter is accessed under that mutex or atomically, everywhere; sampling and periodic rendering hold the output mutex; the final render is unconditional and ordered after the unbuffered done handshake; every channel close is ordered after its senders (defer / WaitGroup discipline); reader slots are released on every exit; pooled contexts are re-bound before use. Exhaustive over code paths and goroutine bodies of the analysed build; does not enumerate schedules.",
+  "Trusts go/types, go/cfg, that goroutines start only at go statements, and that composite literals initialise before publication. Does not decide general deadlock freedom or monotonicity of intermediate renders.",
+  "DESIGN.md §3 C05, §2.1 E-LOCK")
+
 PENDING_REASON = "static check for this property is designed in DESIGN.md §3 but not yet built in this revision of /verif; not claimed until it runs"
 
 def main():
